@@ -109,7 +109,13 @@ def immutable(types, desc, cfg):
     # deserialized instances behave the same
     rd = EoReader(a)
     rd.chunked_reading_mode = desc["entry"]
-    back = cls.deserialize(rd)
+    try:
+        back = cls.deserialize(rd)
+    except ValueError:
+        # wire-ambiguous layouts may re-read their own bytes as a negative string length (C03's documented ValueError)
+        back = None
+    if back is None:
+        return
     # a deserialized instance may hold values the wire cannot carry (e.g. 254 decoded from a 0xFF byte of an
     # ambiguous layout): then serialize refuses it - both times alike
     b1 = ser_outcome(cls, back)
